@@ -19,13 +19,14 @@ import (
 )
 
 func main() {
+	progs.RecordHookCalls = true // this driver is sequential: every harness hook notes the level and message it was handed
 	hlib.Main(map[string]func(*hlib.Ctx){"C01": run, "C02": run, "C03": run})
 }
 
 const header = "From Verif Require Import Base.Prelude Base.Decimal Enc.JsonEnc Misc.Level Api.Exec Harness.C01H."
 
 func run(c *Ctx) {
-	c.Res.Rule = "a case is a whole logging program: global settings, a logger derivation chain (With/UpdateContext with context ops, hooks incl. the library's LevelHook, byte-neutral Level/Output/Sample, stretches derived while the logger is Disabled or descends from Nop()), one event started through WithLevel / the level's method / Logger.Write / Print (level, field ops with nesting Dict/Array/Object/EmbedObject/Fields/Func/errors, message, finalizer); values drawn from class alphabets (escaping/UTF-8 classes, integer/float/time boundaries; directed: type names with tags, years and zone offsets at the ends of time.Time, neighbouring instants under dot- and comma-fraction layouts, float32 and float64 bit patterns at and next to every threshold of the float text in both widths and signs (C02); another event started on a logger and writer of its own at every kind of place of the program - caller code, callback, marshaler, dict under construction, hook - before / after a Discard(), finalized at once or after the outer event: each inner event is a case of its own, every Write on its writer is accounted for); corpus of fixed defects first; non-trivial = the event was written and has at least 3 members; distinct by Gallina term"
+	c.Res.Rule = "a case is a whole logging program: global settings, a logger derivation chain (With/UpdateContext with context ops, hooks incl. the library's LevelHook - every harness hook notes the level and message it is handed: they must be the event's level and final message -, byte-neutral Level/Output/Sample, stretches derived while the logger is Disabled or descends from Nop()), one event started through WithLevel / the level's method / Logger.Write / Print (level, field ops with nesting Dict/Array/Object/EmbedObject/Fields/Func/errors, message, finalizer); values drawn from class alphabets (escaping/UTF-8 classes, integer/float/time boundaries; directed: type names with tags, years and zone offsets at the ends of time.Time, neighbouring instants under dot- and comma-fraction layouts, float32 and float64 bit patterns at and next to every threshold of the float text in both widths and signs (C02); another event started on a logger and writer of its own at every kind of place of the program - caller code, callback, marshaler, dict under construction, hook - before / after a Discard(), finalized at once or after the outer event: each inner event is a case of its own, every Write on its writer is accounted for); corpus of fixed defects first; non-trivial = the event was written and has at least 3 members; distinct by Gallina term"
 	c.OpenShards(header, "c01_case * c01_obs", "mismatches c01_run c01_eqb", 400)
 	n := 3000
 	if c.Thorough() {
@@ -135,6 +136,7 @@ func run(c *Ctx) {
 		}
 		emit(cs)
 	}
+	c.Res.ExtraCoverage["hook_invocations_whose_level_and_message_were_checked"] = hookArgChecks
 }
 
 var callerSkips = []int{progs.CallerGlobal, progs.CallerGlobal, 0, 1, 2, progs.CallerBeyond}
@@ -427,5 +429,40 @@ func monitorLayoutAs(c *Ctx, cs *progs.Case, o progs.Obs, desc interface{}) {
 	// a discarding hook does not stop later hooks in the code; the property asks each hook exactly once per enabled event
 	if fmt.Sprint(got) != fmt.Sprint(want) {
 		c.Violate(Violation{Key: "hooks-not-once-in-order", Monitor: "hooks-once", Desc: fmt.Sprintf("hook invocations %v, want %v", got, want), Case: desc, Observed: got, Expected: want})
+	}
+	monitorHookArgs(c, cs, o, desc)
+}
+
+var hookArgChecks int
+
+// monitorHookArgs (C03: every hook "receives the event's level and final message"): every invocation of a harness
+// hook - a Hook() hook at any position of the derivation, the hook a LevelHook holds for the event's level - must have
+// been handed
+//   - the final message text: the argument of Msg, the formatted text of Msgf, the result of MsgFunc's function, the
+//     empty text for Send, the text Print / Printf / Println build in the manner of fmt.Sprint / Sprintf / Sprintln,
+//     the bytes given to Logger.Write without the one trailing newline it trims - in every program of this driver that
+//     is the case's message;
+//   - the event's level (the argument of WithLevel, the level of the method that started the event, Debug for the
+//     Print family, NoLevel for Log() and Logger.Write) - or Disabled once a Discard() may have run on the event (in the
+//     event's own calls or in an earlier hook; DESIGN.md section 8: nothing more is demanded of the level then).
+func monitorHookArgs(c *Ctx, cs *progs.Case, o progs.Obs, desc interface{}) {
+	if desc == nil {
+		desc = cs.Describe()
+	}
+	mayBeDisabled := progs.HasDiscard(cs.Ops)
+	wantMsg := string(cs.Msg)
+	for i, hc := range o.HookCalls {
+		hookArgChecks++
+		if hc.Msg != wantMsg {
+			c.Violate(Violation{Key: "hook-handed-wrong-message", Monitor: "hook-arguments", Desc: fmt.Sprintf("hook invocation %d of the event (mark %d) was handed the message %q; the event's final message is %q (finalizer %d: 0 Msg 1 Send 2 Msgf 3 MsgFunc; started through %s)", i, hc.ID, hc.Msg, wantMsg, cs.Fin, progs.EntryNames[cs.EntryUsed()]), Case: desc, Observed: fmt.Sprintf("%q", hc.Msg), Expected: fmt.Sprintf("%q", wantMsg)})
+		}
+		if int(hc.Level) != cs.Level && !(mayBeDisabled && hc.Level == zerolog.Disabled) {
+			exp := fmt.Sprint(cs.Level)
+			if mayBeDisabled {
+				exp += " or 7 (Disabled: a Discard() may have run before this hook)"
+			}
+			c.Violate(Violation{Key: "hook-handed-wrong-level", Monitor: "hook-arguments", Desc: fmt.Sprintf("hook invocation %d of the event (mark %d) was handed level %d; the event's level is %s (started through %s)", i, hc.ID, int(hc.Level), exp, progs.EntryNames[cs.EntryUsed()]), Case: desc, Observed: int(hc.Level), Expected: exp})
+		}
+		mayBeDisabled = mayBeDisabled || hc.Discards
 	}
 }
